@@ -23,7 +23,7 @@ class C20(Prop):
                    'the Windows-only replacements of libc functions (erf approximation) are not the code modelled',
                    'constant ND of the uniform prior is taken from its numeric definition (the gamma-function form is not evaluated)']
     unproved = ['the 20 translated array kernels (station / location-sample / tensor loops of all likelihoods, ln_prod / ln_combine / ln_multipliers, relative-amplitude loops, scatter binning) are '
-                'evaluated against the Python paths at Float; loop theorems exist for the three station kernels and the three plain c_*_ln_pdf wrappers only (Props/C20Loops); the *_gen variants, relative_amplitude_loop and random generation are not '
+                'evaluated against the Python paths at Float; loop theorems (Props/C20Loops, C20LoopsCombined, C20Relative, C20Binning) cover all station kernels, all seven wrappers, the relative-amplitude loops and binning, not ln_prod / ln_combine / ln_multipliers; the *_gen variants, relative_amplitude_loop and random generation are not '
                 'translated (listed per function in the evidence)',
                 'one-dimensional array reductions c_ln_normalise, c_dkl, c_dkl_uniform are translated (left folds) and evaluated against '
                 'ln_normalise / dkl of the Python path, without an equality theorem',
